@@ -9,38 +9,59 @@ Core Lean only.
 import WzVerif.Model.Paths
 namespace Wz.Paths
 
-/-- `send_from_directory(directory, path, environ)`: the file that is sent, or `none` = NotFound -/
-def sendFromDirectory (isfile : Str → Bool) (directory path : Str) : Option Str :=
-  match safeJoin directory [path] with
+/-- `safe_join(root, rel)` followed by the file test: the path that is opened, or `none` -/
+def joinIfFile (isfile : Str → Bool) (root rel : Str) : Option Str :=
+  match safeJoin root [rel] with
   | none => none
   | some p => if isfile p then some p else none
+
+/-- `send_from_directory(directory, path, environ)`: the file that is sent, or `none` = NotFound -/
+def sendFromDirectory (isfile : Str → Bool) (directory path : Str) : Option Str :=
+  joinIfFile isfile directory path
 
 /-- the loader `get_directory_loader(directory)` returns, applied to `path` (`None` = the export
 key itself was requested): the file to open, or `none` -/
 def directoryLoader (isfile : Str → Bool) (directory : Str) (path : Option Str) : Option Str :=
-  let p :=
-    match path with
-    | some rel => safeJoin directory [rel]
-    | none => some directory
-  match p with
+  match path with
+  | some rel => joinIfFile isfile directory rel
+  | none => if isfile directory then some directory else none
+
+/-- the loader `get_package_loader(package, package_path)` returns, applied to `path`: the resource
+path handed to `reader.open_resource` (relative to the package directory), or `none`.
+`canOpen` = `open_resource` succeeds (no OSError); `None` is never served by a package export. -/
+def packageLoader (canOpen : Str → Bool) (packagePath : Str) (path : Option Str) : Option Str :=
+  match path with
   | none => none
-  | some q => if isfile q then some q else none
+  | some rel => joinIfFile canOpen packagePath rel
+
+/-- what an export key is mapped to: a directory, or `(package, package_path)` -/
+inductive Export where
+  | dir (directory : Str)
+  | pkg (packagePath : Str)
+
+def Export.root : Export → Str
+  | .dir d => d
+  | .pkg pp => pp
+
+/-- the loader of an export; `isfile` doubles as "can be opened" for package resources -/
+def loaderOf (isfile : Str → Bool) : Export → Option Str → Option Str
+  | .dir d => directoryLoader isfile d
+  | .pkg pp => packageLoader isfile pp
 
 /-- `str.startswith` -/
 def startsWith (s pre : Str) : Bool := pre.isPrefixOf s
 
-/-- the export loop of `SharedDataMiddleware.__call__` over directory exports
-`(search_path, directory)`: the file that is served, or `none` = the wrapped app is called -/
-def sharedData (isfile : Str → Bool) : List (Str × Str) → Str → Option Str
+/-- the export loop of `SharedDataMiddleware.__call__` over exports `(search_path, export)`: the
+file that is served, or `none` = the wrapped app is called -/
+def sharedData (isfile : Str → Bool) : List (Str × Export) → Str → Option Str
   | [], _ => none
-  | (search, directory) :: rest, path =>
-    let exact := if search = path then directoryLoader isfile directory none else none
+  | (search, ex) :: rest, path =>
+    let exact := if search = path then loaderOf isfile ex none else none
     match exact with
     | some f => some f
     | none =>
       let sp := if search.getLast? = some '/' then search else search ++ ['/']
-      let sub := if startsWith path sp then directoryLoader isfile directory (some (path.drop sp.length))
-                 else none
+      let sub := if startsWith path sp then loaderOf isfile ex (some (path.drop sp.length)) else none
       match sub with
       | some f => some f
       | none => sharedData isfile rest path
